@@ -1,10 +1,198 @@
 import DFV.JsonField
+import DFV.Model.C10
+/-! driver ops of property C10 (JSON glue: trusted, not model) -/
 namespace DFV.Drv
-open Lean DFV
+open Lean DFV DFV.C10
 
-/-- driver ops of property C10 (stub: no ops yet) -/
+namespace C10J
+
+def intOfRat (q : Rat) : R Int :=
+  if q.den = 1 then .ok q.num else .error s!"integer expected, got {ratToString q}"
+
+def intsOf (j : Json) : R (List Int) := do
+  let qs ← listOf ratOfJson j
+  qs.mapM intOfRat
+
+def intQ (i : Int) : Json := .str (toString i)
+
+def nkOf (j : Json) : R NK := do
+  match (← strOfJson j) with
+  | "i" => pure .int
+  | "f" => pure .float
+  | s => throw s!"bad kind {s}"
+
+def nkJ : NK → Json
+  | .int => .str "i"
+  | .float => .str "f"
+
+def numArrOf (j : Json) : R NumArr := do
+  match (← nkOf (← fld j "k")) with
+  | .int => pure (.ints (← intsOf (← fld j "v")))
+  | .float => pure (.floats (← listOf ratOfJson (← fld j "v")))
+
+def numArrJ (a : NumArr) : Json :=
+  Json.mkObj [("k", nkJ a.kind), ("v", ratsJ a.vals)]
+
+def numOf (j : Json) : R Num := do
+  let q ← ratOfJson (← fld j "v")
+  match (← nkOf (← fld j "k")) with
+  | .int => pure (.int (← intOfRat q))
+  | .float => pure (.float q)
+
+def numJ (x : Num) : Json := Json.mkObj [("k", nkJ x.kind), ("v", ratToJson x.val)]
+
+def tregOf (j : Json) : R TReg := do
+  pure { pmin := ← numArrOf (← fld j "pmin"), pmax := ← numArrOf (← fld j "pmax"),
+         dims := ← strs j "dims", units := ← strs j "units", tol := ← numOf (← fld j "tol") }
+
+def tregJ (r : TReg) : Json :=
+  Json.mkObj [("pmin", numArrJ r.pmin), ("pmax", numArrJ r.pmax), ("dims", strsJ r.dims),
+    ("units", strsJ r.units), ("tol", numJ r.tol)]
+
+def h5regOf (j : Json) : R H5Region := do
+  pure { pmin := ← numArrOf (← fld j "pmin"), pmax := ← numArrOf (← fld j "pmax"),
+         dims := ← strs j "dims", units := ← strs j "units", ndim := ← natOfJson (← fld j "ndim"),
+         tol := ← numOf (← fld j "tol") }
+
+def h5regJ (r : H5Region) : Json :=
+  Json.mkObj [("pmin", numArrJ r.pmin), ("pmax", numArrJ r.pmax), ("dims", strsJ r.dims),
+    ("units", strsJ r.units), ("ndim", .num (JsonNumber.fromNat r.ndim)), ("tol", numJ r.tol)]
+
+def tmeshOf (j : Json) : R TMesh := do
+  let subs ← listOf (fun e => do pure ((← strOfJson (← fld e "name")), (← tregOf (← fld e "region")))) (← fld j "subs")
+  pure { region := ← tregOf (← fld j "region"), n := ← nats j "n", bc := ← strOfJson (← fld j "bc"), subs := subs }
+
+def tmeshJ (m : TMesh) : Json :=
+  Json.mkObj [("region", tregJ m.region), ("n", natsJ m.n), ("bc", .str m.bc),
+    ("subs", listJ (fun (p : String × TReg) => Json.mkObj [("name", .str p.1), ("region", tregJ p.2)]) m.subs)]
+
+def pairOf (j : Json) : R (Rat × Rat) := do
+  match (← arr j).toList with
+  | [a, b] => pure ((← ratOfJson a), (← ratOfJson b))
+  | _ => throw "pair expected"
+
+def darrOf (j : Json) : R DArr := do
+  let shape ← nats j "shape"
+  let buf ← match (← strOfJson (← fld j "k")) with
+    | "i" => pure (DBuf.ints (← intsOf (← fld j "v")))
+    | "f" => pure (DBuf.floats (← listOf ratOfJson (← fld j "v")))
+    | "c" => pure (DBuf.complexes (← listOf pairOf (← fld j "v")))
+    | s => throw s!"bad data kind {s}"
+  if buf.length ≠ natProd shape then throw s!"buffer length {buf.length} ≠ prod shape {natProd shape}"
+  pure { shape := shape, buf := buf }
+
+def darrJ (a : DArr) : Json :=
+  let k := match a.buf.kind with | .int => "i" | .float => "f" | .complex => "c"
+  Json.mkObj [("k", .str k), ("shape", natsJ a.shape),
+    ("v", listJ (fun (p : Rat × Rat) => Json.arr #[ratToJson p.1, ratToJson p.2]) a.buf.vals)]
+
+def varrOf (j : Json) : R VArr := do
+  let shape ← nats j "shape"
+  let buf ← bools j "v"
+  if buf.length ≠ natProd shape then throw "valid buffer length"
+  pure { shape := shape, buf := buf }
+
+def varrJ (a : VArr) : Json := Json.mkObj [("shape", natsJ a.shape), ("v", boolsJ a.buf)]
+
+def tfldOf (j : Json) : R TFld := do
+  pure { mesh := ← tmeshOf (← fld j "mesh"), nvdim := ← natOfJson (← fld j "nvdim"),
+         data := ← darrOf (← fld j "data"), valid := ← varrOf (← fld j "valid"),
+         vdims := ← optStrsOfJson j "vdims", vmap := ← pairsOfJson j "vmap", unit := ← optStrOfJson j "unit" }
+
+def tfldJ (f : TFld) : Json :=
+  Json.mkObj [("mesh", tmeshJ f.mesh), ("nvdim", .num (JsonNumber.fromNat f.nvdim)), ("data", darrJ f.data),
+    ("valid", varrJ f.valid), ("vdims", optStrsJ f.vdims), ("vmap", pairsJ f.vmap), ("unit", optStrJ f.unit)]
+
+def h5subsOf (j : Json) : R H5Subs := do
+  let k ← nkOf (← fld j "k")
+  let rows ← listOf (fun r => do
+    match k with
+    | .int => pure (NumArr.ints (← intsOf r))
+    | .float => pure (NumArr.floats (← listOf ratOfJson r))) (← fld j "rows")
+  pure { names := ← strs j "names", kind := k, rows := rows }
+
+def h5subsJ (s : H5Subs) : Json :=
+  Json.mkObj [("names", strsJ s.names), ("k", nkJ s.kind),
+    ("rowkinds", listJ (fun (r : NumArr) => nkJ r.kind) s.rows),
+    ("rows", listJ (fun (r : NumArr) => ratsJ r.vals) s.rows)]
+
+def h5meshOf (j : Json) : R H5Mesh := do
+  let subs ← match fldOpt j "subs" with
+    | none => pure none
+    | some s => some <$> h5subsOf s
+  pure { region := ← h5regOf (← fld j "region"), n := ← intsOf (← fld j "n"), bc := ← strOfJson (← fld j "bc"),
+         subs := subs }
+
+def h5meshJ (m : H5Mesh) : Json :=
+  Json.mkObj [("region", h5regJ m.region), ("n", listJ intQ m.n), ("bc", .str m.bc),
+    ("subs", match m.subs with | none => .null | some s => h5subsJ s)]
+
+def vdimsAttrOf (j : Json) : R VdimsAttr :=
+  match fldOpt j "str", fldOpt j "list" with
+  | some s, _ => do pure (.str (← strOfJson s))
+  | none, some l => do pure (.list (← listOf strOfJson l))
+  | none, none => throw "vdims attr: str or list expected"
+
+def vdimsAttrJ : VdimsAttr → Json
+  | .str s => Json.mkObj [("str", .str s)]
+  | .list l => Json.mkObj [("list", strsJ l)]
+
+def h5fieldOf (j : Json) : R H5Field := do
+  pure { mesh := ← h5meshOf (← fld j "mesh"), nvdim := ← intOfJson (← fld j "nvdim"),
+         vdims := ← vdimsAttrOf (← fld j "vdims"), unit := ← strOfJson (← fld j "unit"),
+         array := ← darrOf (← fld j "array"), valid := ← varrOf (← fld j "valid") }
+
+def h5fieldJ (f : H5Field) : Json :=
+  Json.mkObj [("mesh", h5meshJ f.mesh), ("nvdim", .num (JsonNumber.fromInt f.nvdim)), ("vdims", vdimsAttrJ f.vdims),
+    ("unit", .str f.unit), ("array", darrJ f.array), ("valid", varrJ f.valid)]
+
+def legacyOf (j : Json) : R Legacy := do
+  let sidecar ← match fldOpt j "sidecar" with
+    | none => pure none
+    | some s => some <$> listOf (fun e => do pure ((← strOfJson (← fld e "name")), (← h5regOf (← fld e "region")))) s
+  pure { p1 := ← numArrOf (← fld j "p1"), p2 := ← numArrOf (← fld j "p2"), n := ← intsOf (← fld j "n"),
+         dim := ← intOfJson (← fld j "dim"), array := ← darrOf (← fld j "array"), sidecar := sidecar }
+
+def h5fileOf (j : Json) : R H5File :=
+  match fldOpt j "version" with
+  | none => do pure (.unversioned (← legacyOf (← fld j "legacy")))
+  | some v => do pure (.versioned (← strOfJson v) (← strOfJson (← fld j "type")) (← h5fieldOf (← fld j "field")))
+
+def h5fileJ : H5File → Json
+  | .versioned v t f => Json.mkObj [("version", .str v), ("type", .str t), ("field", h5fieldJ f)]
+  | .unversioned _ => Json.mkObj [("version", .null)]
+
+def fmtJ (x : M Fmt) : Json :=
+  match x with
+  | .ok .ovf => .str "ovf"
+  | .ok .vtk => .str "vtk"
+  | .ok .hdf5 => .str "hdf5"
+  | .error _ => .str "err"
+
+end C10J
+
+open C10J in
+/-- driver ops of property C10 -/
 def c10 (op : String) (j : Json) : Option (R Json) :=
   match op with
+  | "save" => some do
+      let f ← tfldOf (← fld j "field")
+      pure (Json.mkObj [("ok", h5fileJ (h5Save f))])
+  | "load" => some do
+      let h ← h5fileOf (← fld j "file")
+      pure (resJ tfldJ (h5Load h))
+  | "legacy_doc" => some do
+      let l ← legacyOf (← fld j "legacy")
+      pure (resJ tfldJ (legacyLoadDoc l))
+  | "roundtrip" => some do
+      let f ← tfldOf (← fld j "field")
+      pure (resJ tfldJ (h5Load (h5Save f)))
+  | "loaded" => some do
+      let f ← tfldOf (← fld j "field")
+      pure (Json.mkObj [("ok", tfldJ (loaded f))])
+  | "fmt" => some do
+      let s ← strOfJson (← fld j "suffix")
+      pure (Json.mkObj [("write", fmtJ (writeFmt s)), ("read", fmtJ (readFmt s))])
   | _ => none
 
 end DFV.Drv
